@@ -182,7 +182,10 @@ Fb0(ge) ==
        [o \in 1..(ge.h * ge.pitch) |->
           LET r == (o - 1) \div ge.pitch  c == (o - 1) % ge.pitch  p == c \div Bp  k == c % Bp
               ci == Idx4[((r * 3 + p * 5 + (p \div 3)) % 4) + 1]
-          IN IF ge.bpp = 8 THEN ci ELSE C!PackByte(ge.ci, DefPal[ci + 1], k)]
+          IN IF ge.bpp = 8 THEN ci
+             \* (every third slot of an XRGB buffer carries a foreign top byte below the same colour bytes)
+             ELSE IF k = 3 /\ C!MaskByte(ge.ci, 3) = 0 /\ (r + p) % 3 = 0 THEN 170
+             ELSE C!PackByte(ge.ci, DefPal[ci + 1], k)]
 
 Init ==
   /\ g \in Geoms
